@@ -15,9 +15,10 @@ API = "phonopy/api_phonopy.py"
 def run(rep: core.Report):
     rep.rule("R09a", "weights account for every grid point by construction: one increment per entry of the mapping table, selected by the set of values of the same table", 3)
     rep.rule("R09b", "coupled flags: wherever mesh symmetry is switched off, time reversal handed to the symmetry library is off as well (GridPoints constructor paths, MeshBase callers)", 3)
-    rep.rule("R09c", "the same point-group rotations reach stored and iterated meshes; the symmetry library receives them untransposed and the lattice-equivalence test their transposes", 4)
+    rep.rule("R09c", "the same point-group rotations reach stored and iterated meshes; the symmetry library receives them untransposed and the lattice-equivalence test their transposes", 3)
     rep.rule("R09d", "every consumer of a mesh weights its sum by the multiplicity of the same q-point and normalises by the sum of weights; consumers that need an unreduced mesh test for it before they start", 8)
     rep.rule("R09e", "axis/weight typing of the mesh consumers (moments, DOS, thermal sums): every construct that sums over the irreducible q-points (sum/mean over that axis, np.dot/einsum contracting it, += in a loop over q) has the weight of the q-point on its operand, and the stored result is homogeneous of degree 0 in the weights (normalised by their sum)", 10)
+    rep.rule("R09f", "precondition for reducing a mesh by point-group rotations: for each pair of lattice-equivalent axes both the mesh numbers and the half-shift flags of exactly these axes are compared (order b~c, c~a, a~b of get_lattice_vector_equivalence)", 6)
     _r09a(rep)
     _r09b(rep)
     _r09c(rep)
@@ -105,9 +106,67 @@ def _r09c(rep):
     t = [core.src(c) for c in ast.walk(hs) if isinstance(c, ast.Call) and core.src(c.func) == "get_lattice_vector_equivalence"]
     rep.instance("R09c", GP, "GridPoints._has_mesh_symmetry", t[0] if t else "<vanished>", t == ["get_lattice_vector_equivalence([r.T for r in self._rotations])"],
                  "the lattice-vector equivalence test no longer receives the transposed (reciprocal-space) rotations", line=hs.lineno)
-    txt = core.src(hs)
-    rep.instance("R09c", GP, "GridPoints._has_mesh_symmetry", "mesh numbers along equivalent axes are equal", "mesh_equiv = [m[1] == m[2], m[2] == m[0], m[0] == m[1]]" in txt and "np.extract(lattice_equiv, mesh_equiv).all()" in txt,
-                 "the compatibility test between mesh numbers and symmetry-equivalent axes changed", line=hs.lineno, nontrivial=False)
+    _r09f(rep, hs)
+
+
+PAIRS = [frozenset((1, 2)), frozenset((2, 0)), frozenset((0, 1))]  # order of get_lattice_vector_equivalence: (b==c, c==a, a==b)
+
+
+def _r09f(rep, hs):
+    """What a rotation exchanging two axes must preserve is compared for exactly that pair of axes: mesh number and half-shift flag."""
+    defs = {}
+    for st in ast.walk(hs):
+        if isinstance(st, ast.Assign) and len(st.targets) == 1 and isinstance(st.targets[0], ast.Name):
+            defs[st.targets[0].id] = st.value
+
+    def base(e):
+        seen = 0
+        while isinstance(e, ast.Name) and e.id in defs and seen < 5:
+            e = defs[e.id]
+            seen += 1
+        return core.src(e)
+
+    def facts(e):
+        """set of (base, frozenset(index pair)) equalities required by expression e"""
+        out = set()
+        for c in ast.walk(e):
+            if isinstance(c, ast.Compare) and len(c.ops) == 1 and isinstance(c.ops[0], ast.Eq):
+                l, r = c.left, c.comparators[0]
+                if isinstance(l, ast.Subscript) and isinstance(r, ast.Subscript) and isinstance(l.slice, ast.Constant) and isinstance(r.slice, ast.Constant) and base(l.value) == base(r.value):
+                    out.add((base(l.value), frozenset((l.slice.value, r.slice.value))))
+        return out
+
+    def elements(e, depth=0):
+        if depth > 6:
+            return None
+        if isinstance(e, ast.Name) and e.id in defs:
+            return elements(defs[e.id], depth + 1)
+        if isinstance(e, (ast.List, ast.Tuple)) and len(e.elts) == 3:
+            return [facts(x) for x in e.elts]
+        if isinstance(e, ast.Call) and core.src(e.func) in ("np.array", "np.asarray", "list") and e.args:
+            return elements(e.args[0], depth + 1)
+        if isinstance(e, ast.Call) and core.src(e.func) == "np.logical_and" and len(e.args) == 2:
+            a, b = elements(e.args[0], depth + 1), elements(e.args[1], depth + 1)
+            return [x | y for x, y in zip(a, b)] if a and b else None
+        if isinstance(e, ast.BinOp) and isinstance(e.op, ast.BitAnd):
+            a, b = elements(e.left, depth + 1), elements(e.right, depth + 1)
+            return [x | y for x, y in zip(a, b)] if a and b else None
+        return None
+
+    rets = [r for r in ast.walk(hs) if isinstance(r, ast.Return) and r.value is not None and not isinstance(r.value, ast.Constant)]
+    ext = [c for r in rets for c in ast.walk(r.value) if isinstance(c, ast.Call) and core.src(c.func) == "np.extract" and len(c.args) == 2]
+    if not ext:
+        raise AnalysisError("R09f: GridPoints._has_mesh_symmetry no longer returns np.extract(<axis equivalence>, <compatibility>).all()")
+    sel = ext[0].args[0]
+    sel_ok = any(isinstance(c, ast.Call) and core.src(c.func) == "get_lattice_vector_equivalence" for c in ast.walk(defs.get(sel.id, sel) if isinstance(sel, ast.Name) else sel))
+    el = elements(ext[0].args[1])
+    if el is None or not sel_ok:
+        raise AnalysisError("R09f: the compatibility list of _has_mesh_symmetry is not a three-element list of comparisons")
+    for k, (want, got) in enumerate(zip(PAIRS, el)):
+        name = ("b~c", "c~a", "a~b")[k]
+        for attr, what in (("self._mesh", "mesh numbers"), ("self._is_shift", "half-shift flags")):
+            rep.instance("R09f", GP, "GridPoints._has_mesh_symmetry", f"{name}: {what} of axes {sorted(want)} compared", (attr, want) in got,
+                         f"when a point-group rotation exchanges axes {sorted(want)} the {what} of these two axes are not required to be equal: the rotation does not map the (shifted) grid onto itself, grid points are paired with points that are not symmetry-related and weighted mesh sums differ from the full mesh (e.g. tetragonal cell with unique axis a, half shift on b only)", line=hs.lineno)
 
 
 def _weighted_loop(fn, weights_attr="self._weights"):
@@ -238,5 +297,8 @@ def selftest():
     b("zero-point energy forgets the weight", TPF, "                zp_energy += np.sum(positive_fs) * w / 2", "                zp_energy += np.sum(positive_fs) / 2", "R09e", "ThermalProperties.__init__")
     n("moment loop vectorised", MO, "        moment = 0\n        norm0 = 0\n        for i, w in enumerate(self._weights):\n            for freq in self._frequencies[i]:\n                if self._fmin < freq and freq < self._fmax:\n                    norm0 += w\n                    moment += freq**order * w\n", "        ok = np.logical_and(self._fmin < self._frequencies, self._frequencies < self._fmax)\n        norm0 = np.dot(self._weights, ok.sum(axis=1))\n        moment = np.dot(self._weights, np.where(ok, self._frequencies**order, 0).sum(axis=1))\n")
     n("total DOS via einsum", DOS, "            np.dot(self._weights, self._smearing_function.calc(self._frequencies - f))\n", "            np.einsum('q,qb->b', self._weights, self._smearing_function.calc(self._frequencies - f))\n")
+    b("shift flags not compared", GP, "            m[1] == m[2] and s[1] == s[2],", "            m[1] == m[2],", "R09f", "half-shift")
+    b("mesh pair order rotated", GP, "            m[1] == m[2] and s[1] == s[2],\n            m[2] == m[0] and s[2] == s[0],\n            m[0] == m[1] and s[0] == s[1],", "            m[0] == m[1] and s[0] == s[1],\n            m[1] == m[2] and s[1] == s[2],\n            m[2] == m[0] and s[2] == s[0],", "R09f", "mesh numbers")
+    n("compatibility via logical_and", GP, "        mesh_equiv = [\n            m[1] == m[2] and s[1] == s[2],\n            m[2] == m[0] and s[2] == s[0],\n            m[0] == m[1] and s[0] == s[1],\n        ]", "        mesh_equiv = np.logical_and([m[1] == m[2], m[2] == m[0], m[0] == m[1]], [s[1] == s[2], s[2] == s[0], s[0] == s[1]])")
     b("lattice equivalence with untransposed rotations", GP, "get_lattice_vector_equivalence([r.T for r in self._rotations])", "get_lattice_vector_equivalence([r for r in self._rotations])", "R09c", "_has_mesh_symmetry")
     return V
